@@ -74,6 +74,17 @@ def check(tier, seed):
             add(f"derive {s} bytes:{kb.hex()}", 'accepted dishonest sk: derive public key', t < 1)
             mode = fam.MODES[t % 4]
             add(f"sign {s} {mode} bytes:{kb.hex()} {hx(msg)} {hx(b'c')} ok:{'33' * 32}", 'accepted dishonest sk: sign', t < 1)
+        # --- one out-of-range s1/s2 field at each structural position: whatever deserialisation does with it, nothing may panic
+        for pi in sorted({0, l - 1, l, l + k - 1}):
+            for ci in (0, 255):
+                for v in (2 * eta + 1, (1 << bl) - 1):
+                    kb = set_field(sk, bl, pi * 256 + ci, v)
+                    add(f"sk_rt {s} bytes:{kb.hex()}", 'out-of-range s1/s2 field: deserialise (+ serialise if accepted)', False)
+                    add(f"derive {s} bytes:{kb.hex()}", 'out-of-range s1/s2 field: derive', False)
+        # --- accepted keys whose t = A s1 + s2 leaves [0, q) before the final reduction
+        for tag, skb, _ in fam.boundary_t_keys(rng, s, want=1):
+            add(f"derive {s} bytes:{skb.hex()}", 'boundary-t key: derive', True)
+            add(f"sign {s} pure bytes:{skb.hex()} {hx(msg)} - ok:{'77' * 32}", 'boundary-t key: sign', False)
         # --- honest key with an edited t0 section (the F2 class), tr, K
         for t in range(n):
             kb = bytearray(sk)
